@@ -17,6 +17,10 @@ fi
 SYSROOT="$(rustc +nightly --print sysroot)"
 TDIR="${RULER_FACTS_TARGET:-$VERIF/.cache/target-$CRATE}"
 mkdir -p "$TDIR"
+# one extraction at a time (shared target directory; concurrent runs would delete each
+# other's fingerprints or be served from cargo's freshness cache without running the driver)
+exec 9>"$VERIF/.cache/extract.lock"
+flock 9
 # cargo's freshness cache would skip the wrapper: forget the crate's fingerprints
 rm -rf "$TDIR"/debug/.fingerprint/"$CRATE"-* 2>/dev/null
 rm -f "$OUT.json" "$OUT.test.json"
